@@ -582,6 +582,99 @@ class _AnyDraws:
         return iter([v for (_, _, v) in rseam.log[-400:]])
 
 
+# ------------------------------------------------------------------ self-test of the scheduler on synthetic library code
+_SELFTEST_SRC = """
+import threading
+_lock = threading.Lock()
+_a = threading.Lock()
+_b = threading.Lock()
+counter = [0]
+
+
+def bump_unlocked():
+    v = counter[0]
+    v = v + 1
+    counter[0] = v
+    return v
+
+
+def bump_locked():
+    with _lock:
+        v = counter[0]
+        v = v + 1
+        counter[0] = v
+    return v
+
+
+def ab():
+    with _a:
+        x = 1
+        with _b:
+            x = 2
+    return x
+
+
+def ba():
+    with _b:
+        x = 1
+        with _a:
+            x = 2
+    return x
+"""
+_SELFTEST = {}
+
+
+def _selftest_module():
+    """A synthetic module that the scheduler takes for library code (its file name lies under <repo>/src/joserfc; nothing is written)."""
+    import types
+    from .. import sched
+    root = os.path.join(os.path.realpath(os.environ.get("VERIF_REPO", "/repo")), "src", "joserfc")
+    m = _SELFTEST.get(root)
+    if m is None:
+        m = types.ModuleType("joserfc._verif_selftest")
+        m.__file__ = os.path.join(root, "_verif_selftest.py")
+        exec(compile(_SELFTEST_SRC, m.__file__, "exec"), m.__dict__)
+        sys.modules["joserfc._verif_selftest"] = m
+        sched._PATCHED_FOR[0] = None      # the next scheduler scans the modules again and finds this one's locks
+        _SELFTEST[root] = m
+    return m
+
+
+def h_selftest(ctx):
+    """Detection power of E3 itself, shown on every run: an unprotected read-modify-write loses an update under some schedule with one
+    preemption and under none with zero; the same code under a lock never does; AB/BA lock ordering deadlocks under some schedule."""
+    m = _selftest_module()
+    case = ctx.choose("case", ["unlocked-counter", "locked-counter", "ab-ba"])
+    src = os.path.join(os.environ.get("VERIF_REPO", "/repo"), "src", "joserfc")
+    sch = Scheduler(ctx, src)
+    m.counter[0] = 0
+    try:
+        if case == "ab-ba":
+            sch.run([m.ab, m.ba])
+            res = "completed"
+        else:
+            f = m.bump_unlocked if case == "unlocked-counter" else m.bump_locked
+            sch.run([f, f])
+            res = "both-counted" if m.counter[0] == 2 else "UPDATE-LOST"
+    except Deadlock:
+        res = "DEADLOCK"
+    if case == "locked-counter" and res != "both-counted":
+        raise SchedulerError(f"self-test: the cooperative lock did not protect the counter ({res})")
+    if case == "unlocked-counter" and ctx.cost == 0 and res != "both-counted":
+        raise SchedulerError("self-test: an update was lost without any preemption")
+    return Outcome(f"{case}:{res}", [], nontrivial=tuple(ctx.choices))
+
+
+def selftest(tier):
+    from ..explorer import explore_parallel
+    st = explore_parallel(h_selftest, 1, split_depth=1, workers=1)
+    need = {"unlocked-counter:UPDATE-LOST", "unlocked-counter:both-counted", "locked-counter:both-counted", "ab-ba:DEADLOCK", "ab-ba:completed"}
+    missing = need - set(st.buckets)
+    if missing:
+        st.errors.append(f"scheduler self-test: expected outcomes not observed: {sorted(missing)} (observed {dict(st.buckets)})")
+    return st
+
+
 _pd = Part("scheduler-determinism", h_determinism, split_depth=1, engine="E3")
 _pd.single_bucket_ok = True
 _pf = Part("free-running-supplement", custom=free_running, engine="sampling", tiers=("thorough",))
@@ -589,6 +682,7 @@ _pf.single_bucket_ok = True
 PARTS = [
     Part("sequential-histories", custom=sequential, engine="E2"),
     _pd,
+    Part("scheduler-selftest", custom=selftest, engine="E3"),
     Part("thread-schedules", h_pairs, bound={"quick": 1, "thorough": 2}, split_depth=3, budget={"quick": 240, "thorough": 3000}, engine="E3"),
     _pf,
 ]
